@@ -85,6 +85,12 @@ func newWorld(kind string) *world {
 		fatal("boot:", err)
 	}
 	defer n.close()
+	// the database right after NewBlockChain committed the genesis block (repetitions >= 1 start on a copy of it)
+	it := n.db.NewIterator(nil, nil)
+	for it.Next() {
+		w.genesisDB = append(w.genesisDB, [2][]byte{append([]byte{}, it.Key()...), append([]byte{}, it.Value()...)})
+	}
+	it.Release()
 	w.chainID = n.bc.Config().ChainID
 	w.X = crypto.CreateAddress(addrA, 0)
 	su, err1 := staking.NewSmcStakingUtil()
@@ -159,7 +165,7 @@ func buildPrestates(kinds []string) []*prestate {
 		}
 		seen := n.seenCommit(block, parts)
 		o := n.applyBlock(block, parts, seen)
-		if o.Err != "" || len(o.Receipts) != 2 || o.Receipts[0].Status != 1 || o.Receipts[1].Status != 1 || len(o.Receipts[1].Logs) != 1 {
+		if o.Err != "" || len(o.Receipts) != 2 || o.Receipts[0].Status != 1 || o.Receipts[1].Status != 1 {
 			fatal("parent block 1 did not execute as designed:", fmt.Sprintf("%+v", o))
 		}
 		n.close()
@@ -206,6 +212,13 @@ func (p *prestate) imageFor(c cacheCfg) (*image, error) {
 // ---------------------------------------------------------------------------------------------
 // variants
 
+// How a variant's node gets into the parent state:
+//
+//	repetition 0          own genesis: NewBlockChain executes and commits the genesis document, then the node receives the parent blocks
+//	repetition >= 1       the node starts on a copy of a database that already holds the genesis block (NewBlockChain loads it,
+//	                      SetupGenesisBlock's "no genesis document given" path), then receives the parent blocks
+//	cold restart          the node starts on a copy of the database of a node with the same configuration that executed the
+//	                      parent blocks and was stopped (BlockChain.Stop); it is given the genesis document like a real restart
 type variant struct {
 	Cfg  cacheCfg `json:"cache_config"`
 	Rep  int      `json:"repetition"`
@@ -220,6 +233,9 @@ func (v variant) String() string {
 	return s
 }
 
+// fastVariant: reference configuration, started on the genesis database (used for node P and for re-executions)
+var fastVariant = variant{Cfg: cfgFromBits(0), Rep: 1}
+
 var refVariant = variant{Cfg: cfgFromBits(0)}
 
 // quick: four corner configurations in which every axis is on twice and off twice
@@ -227,14 +243,9 @@ var cornerCfgs = []int{0b0000, 0b1111, 0b0110, 0b1001}
 
 func variantsFor(p *prestate, seqLen int) []variant {
 	var vs []variant
-	add := func(bits []int, reps int, cold bool) {
-		for _, b := range bits {
-			for k := 0; k < reps; k++ {
-				vs = append(vs, variant{Cfg: cfgFromBits(b), Rep: k})
-			}
-			if cold && len(p.blocks) > 0 {
-				vs = append(vs, variant{Cfg: cfgFromBits(b), Cold: true})
-			}
+	cold := func(b int) {
+		if len(p.blocks) > 0 {
+			vs = append(vs, variant{Cfg: cfgFromBits(b), Cold: true})
 		}
 	}
 	all := make([]int, 16)
@@ -243,18 +254,31 @@ func variantsFor(p *prestate, seqLen int) []variant {
 	}
 	switch {
 	case r.Quick():
-		add(cornerCfgs, 3, true)
-	case seqLen <= 2:
-		add(all, 3, true)
-	default:
-		// length-3 blocks: all 16 configurations once, the reference configuration three times, cold restarts on the corners
-		add([]int{0}, 3, true)
-		add(all[1:], 1, false)
-		for _, b := range cornerCfgs[1:] {
-			if len(p.blocks) > 0 {
-				vs = append(vs, variant{Cfg: cfgFromBits(b), Cold: true})
+		// 4 corner configurations x 3 repetitions, one cold restart (snapshot + preimages, GC mode)
+		for _, b := range cornerCfgs {
+			for k := 0; k < 3; k++ {
+				vs = append(vs, variant{Cfg: cfgFromBits(b), Rep: k})
 			}
 		}
+		cold(0b0110)
+	case seqLen <= 2:
+		// all 16 configurations x 3 repetitions, a cold restart under each configuration
+		for _, b := range all {
+			for k := 0; k < 3; k++ {
+				vs = append(vs, variant{Cfg: cfgFromBits(b), Rep: k})
+			}
+			cold(b)
+		}
+	default:
+		// length-3 blocks: the reference configuration three times, the other 15 configurations once, cold restarts on two corners
+		for k := 0; k < 3; k++ {
+			vs = append(vs, variant{Cfg: cfgFromBits(0), Rep: k})
+		}
+		for _, b := range all[1:] {
+			vs = append(vs, variant{Cfg: cfgFromBits(b), Rep: 1})
+		}
+		cold(0b0110)
+		cold(0b1111)
 	}
 	return vs
 }
@@ -282,7 +306,17 @@ func nodeFor(p *prestate, v variant) (*node, error) {
 		n.state = im.state.Copy()
 		return n, nil
 	}
-	n, err := boot(v.Cfg, p.Kind)
+	var n *node
+	var err error
+	if v.Rep == 0 {
+		n, err = boot(v.Cfg, p.Kind)
+	} else {
+		db := memorydb.New()
+		for _, kv := range p.w.genesisDB {
+			db.Put(kv[0], kv[1])
+		}
+		n, err = bootOnExisting(db, v.Cfg, p.Kind)
+	}
 	if err != nil {
 		return nil, err
 	}
@@ -348,7 +382,7 @@ type proposal struct {
 // Also derives the ENUMERATED block F: P's header with the template transactions in template order.
 func proposerPath(p *prestate, seq []int) *proposal {
 	pr := &proposal{}
-	n, err := nodeFor(p, refVariant)
+	n, err := nodeFor(p, fastVariant)
 	if err != nil {
 		pr.err = "node construction: " + firstLine(err.Error())
 		return pr
@@ -402,19 +436,37 @@ type caseResult struct {
 
 func describe(p *prestate, seq []int) string { return seqName(seq) + "@" + p.id() }
 
+// confirmRuns re-executions of each side must agree before a difference is attributed to a configuration axis
+// (a 50/50 map-order dependence survives that with probability 2^-(2*confirmRuns)).
+const confirmRuns = 5
+
 // localise re-executes to confirm a discrepancy and to name the axis.
 func localise(p *prestate, w *wireBlock, ref *obs, v variant, o *obs) (axis, field, a, b string) {
 	field, a, b = diff(ref, o)
-	ref2 := execute(p, refVariant, w)
-	if f, x, y := diff(ref, ref2); f != "" {
-		return "repetition", f, x, y // two executions under the reference configuration disagree
+	// Is each side a function of (block, parent state, configuration) at all? Re-execute both sides: a side whose
+	// re-executions disagree is nondeterministic (axis "repetition") whatever the configuration.
+	for k := 0; k < confirmRuns; k++ {
+		if f, x, y := diff(ref, execute(p, refVariant, w)); f != "" {
+			return "repetition", f, x, y
+		}
 	}
+	for k := 0; k < confirmRuns; k++ {
+		if f, x, y := diff(o, execute(p, v, w)); f != "" {
+			return "repetition", f, x, y
+		}
+	}
+	// both sides are reproducible and differ: the difference is caused by how the variant's node was made
 	if v.Cfg == refVariant.Cfg && !v.Cold {
+		if v.Rep > 0 {
+			return "start-on-existing-genesis-db", field, a, b // reproducibly differs from a node that executed the genesis itself
+		}
 		return "repetition", field, a, b
 	}
-	o2 := execute(p, v, w)
-	if f, _, _ := diff(ref, o2); f == "" {
-		return "repetition", field, a, b // the variant does not reproduce: it is not the configuration
+	if v.Rep > 0 && !v.Cold {
+		og := execute(p, fastVariant, w)
+		if f, _, _ := diff(ref, og); f != "" {
+			return "start-on-existing-genesis-db", field, a, b
+		}
 	}
 	if v.Cold {
 		oc := execute(p, variant{Cfg: refVariant.Cfg, Cold: true}, w)
@@ -439,7 +491,7 @@ func localise(p *prestate, w *wireBlock, ref *obs, v variant, o *obs) (axis, fie
 			if bits&(1<<bit) == 0 {
 				continue
 			}
-			os := execute(p, variant{Cfg: cfgFromBits(1 << bit), Cold: v.Cold}, w)
+			os := execute(p, variant{Cfg: cfgFromBits(1 << bit), Cold: v.Cold, Rep: v.Rep}, w)
 			if f, _, _ := diff(ref, os); f != "" {
 				guilty = append(guilty, names[bit])
 			}
@@ -506,18 +558,28 @@ func runCase(p *prestate, seq []int, idx int, variants []variant) *caseResult {
 	}
 	recv := cr.ref
 	if pr.wireP.Hash != pr.wireF.Hash {
-		recv = execute(p, refVariant, pr.wireP)
+		recv = execute(p, fastVariant, pr.wireP)
 		r.Add("proposed_block_differs_from_enumerated", 1)
 	}
 	if recv.Err != "" {
 		mk("proposer-vs-receiver", "block-rejected", fmt.Sprintf("the block a correct proposer built from the pool for [%s] (transactions %v) is rejected by a fresh validator: %s",
 			describe(p, seq), pr.pOrder, recv.Err), nil, "proposed", "", recv.Err)
 	} else if f, a, b := diff(pr.obsP, recv); f != "" {
-		// confirm on a second receiver
-		again := execute(p, refVariant, pr.wireP)
+		// confirm: receivers must agree among themselves, and fresh proposers must disagree with receivers of THEIR block again
 		axis := "proposer-vs-receiver"
-		if f2, _, _ := diff(recv, again); f2 != "" {
-			axis, f = "repetition", f2
+		for k := 0; k < confirmRuns && axis != "repetition"; k++ {
+			if f2, _, _ := diff(recv, execute(p, fastVariant, pr.wireP)); f2 != "" {
+				axis, f = "repetition", f2
+			}
+		}
+		for k := 0; k < confirmRuns && axis != "repetition"; k++ {
+			pr2 := proposerPath(p, seq)
+			if pr2.err != "" || pr2.obsP.Err != "" {
+				continue
+			}
+			if f2, _, _ := diff(pr2.obsP, execute(p, fastVariant, pr2.wireP)); f2 == "" {
+				axis = "repetition" // this proposer agrees with its receiver: the disagreement is not tied to the path
+			}
 		}
 		mk(axis, f, fmt.Sprintf("the proposer of block [%s] (transactions %v) and a validator that received it end in different %s: %s vs %s", describe(p, seq), pr.pOrder, f, clip(a), clip(b)),
 			nil, "proposed", a, b)
@@ -547,9 +609,32 @@ type job struct {
 	seq []int
 }
 
+// length-3 blocks are enumerated over this core of the alphabet (near-duplicates of the other templates dropped)
+// and not on the fork block itself; blocks of <= 2 transactions use the whole alphabet on every parent state.
+var coreNames = []string{"xferA", "poorA", "lowA", "highB", "mkA", "mkRevB", "setB", "clrA", "revB", "killA", "stakeA", "newValB", "startB", "exitV3"}
+
 func enumerate(pres []*prestate, maxLen int) []job {
 	var jobs []job
+	var core []int
+	for _, nm := range coreNames {
+		for i, t := range alphabet {
+			if t.Name == nm {
+				core = append(core, i)
+			}
+		}
+	}
+	if len(core) != len(coreNames) {
+		fatal("core alphabet names a template that does not exist")
+	}
+	full := make([]int, len(alphabet))
+	for i := range full {
+		full[i] = i
+	}
 	for l := 0; l <= maxLen; l++ {
+		letters := full
+		if l >= 3 {
+			letters = core
+		}
 		var seqs [][]int
 		var rec func(cur []int)
 		rec = func(cur []int) {
@@ -557,13 +642,16 @@ func enumerate(pres []*prestate, maxLen int) []job {
 				seqs = append(seqs, append([]int{}, cur...))
 				return
 			}
-			for t := range alphabet {
+			for _, t := range letters {
 				rec(append(cur, t))
 			}
 		}
 		rec(nil)
 		for _, s := range seqs {
 			for _, p := range pres {
+				if l >= 3 && p.Kind == "galaxias" && p.Name == "genesis" {
+					continue
+				}
 				jobs = append(jobs, job{p, s})
 			}
 		}
@@ -735,7 +823,6 @@ func main() {
 		if okOrSkipped {
 			r.Distinct("distinct_nontrivial", describe(j.p, j.seq))
 		}
-		r.Distinct("distinct_result_digests", cr.ref.digest())
 		if r.WantSample() && len(j.seq) == 2 && (strings.Contains(seqName(j.seq), "stakeA") || strings.Contains(seqName(j.seq), "poorA")) {
 			r.Sample(map[string]interface{}{"chain": j.p.Kind, "parent_state": j.p.Name, "templates": strings.Split(seqName(j.seq), ","),
 				"pool_verdicts": cr.pr.poolVerdict, "proposed_block_order": cr.pr.pOrder, "outcomes_in_enumerated_block": oc,
@@ -757,11 +844,12 @@ func main() {
 		o := execute(j.p, refVariant, results[i].pr.wireF)
 		delayed++
 		if f, a, b := diff(results[i].ref, o); f != "" {
-			// confirm: immediately again; if the two late executions agree with each other but not with the early one it is the clock
-			o2 := execute(j.p, refVariant, results[i].pr.wireF)
+			// confirm: more late executions must agree with the first late one (else it is not the clock but chance)
 			axis := "repetition-after-one-second"
-			if f2, _, _ := diff(o, o2); f2 != "" {
-				axis = "repetition"
+			for k := 0; k < confirmRuns; k++ {
+				if f2, _, _ := diff(o, execute(j.p, refVariant, results[i].pr.wireF)); f2 != "" {
+					axis = "repetition"
+				}
 			}
 			names := strings.Split(seqName(j.seq), ",")
 			v := refVariant
@@ -868,9 +956,13 @@ func main() {
 	}
 	sort.Strings(sr)
 	r.Set("skip_reasons_seen", sr)
-	r.Set("rule", "blocks = every sequence of <= "+fmt.Sprint(maxLen)+" transaction templates over the "+fmt.Sprint(len(alphabet))+"-template alphabet (txs.go) x parent states "+strings.Join(pn, ", ")+
+	lenRule := ""
+	if maxLen >= 3 {
+		lenRule = " (length 3: over the " + fmt.Sprint(len(coreNames)) + "-template core " + strings.Join(coreNames, ",") + ", not on the fork block)"
+	}
+	r.Set("rule", "blocks = every sequence of <= "+fmt.Sprint(maxLen)+" transaction templates over the "+fmt.Sprint(len(alphabet))+"-template alphabet (txs.go)"+lenRule+" x parent states "+strings.Join(pn, ", ")+
 		"; the enumerated block carries the template transactions in template order on the header the real proposer produced; every block is executed by ApplyBlock on fresh real node stacks under the variants "+
-		"{cache configuration} x {repetition} x {warm, cold restart} and once through the proposer path; evaluations = block executions by BlockExecutor.ApplyBlock (+ validator-report evaluations, listed separately); "+
+		"{cache configuration} x {repetition} x {warm, cold restart} and once through the proposer path; evaluations = executions of the block under test by BlockExecutor.ApplyBlock (validator_report_evaluations are counted separately); "+
 		"distinct_nontrivial = distinct (template sequence, parent state) whose reference execution executed >= 1 transaction successfully or skipped >= 1 transaction (measured from receipts); "+
 		"validator reports: every permutation of every report of <= 4 of 5 addresses x {absent, power 0, same power, other power} on 5 base sets")
 	r.Assume("Go's per-iteration map-order randomisation cannot be enumerated: it is exercised by the repetitions (>= 3 fresh executions per configuration, >= 12 per block) and by separate processes (thorough), not exhausted",
